@@ -323,6 +323,24 @@ func RaceLogTail() string {
 	return ""
 }
 
+// WriteAhead stores the case that is about to be executed next to the stats file, so that the
+// driver can attribute a fatal crash of this process (stack overflow, out of memory) to it.
+func WriteAhead(check string, c any) {
+	out := os.Getenv("VERIF_OUT")
+	if out == "" {
+		return
+	}
+	raw, _ := json.Marshal(c)
+	b, _ := json.Marshal(Failure{Check: check, Case: raw})
+	os.WriteFile(out+".current", b, 0o644)
+}
+
+func ClearAhead() {
+	if out := os.Getenv("VERIF_OUT"); out != "" {
+		os.Remove(out + ".current")
+	}
+}
+
 // FailAndExit records a failure that cannot be reported through the test framework (a call that
 // does not return) and ends the process; the driver picks the failure up from the stats file.
 func FailAndExit(check string, c any, format string, args ...any) {
